@@ -9,19 +9,22 @@ from harness.props import c06
 PID = "C09"; COQ_TARGET = "C09"
 RULE = ("bounded random networks (0-3 reactions) + rule sets chained in dependency order: repeated assignment to species (integer-valued formulas), additive on top of it, "
         "assignment to a parameter that a reaction rate uses, a dt counter rule, an ODE rule with constant rate, an assignment scheduled at a grid time; simulated "
-        "deterministically, by SSA, safe SSA, volume SSA, delay SSA (stream replay) and as a lineage single cell; non-trivial = at least two rule kinds present")
+        "deterministically, by SSA, safe SSA, volume SSA, delay SSA, delay + volume SSA (stream replay; grids from 0 and grids offset against the dt clock) and as a lineage single cell; non-trivial = at least two rule kinds present")
 TRUSTED = ["hand models coq/Model/Rules.v, SSA.v tied by stream replay", "deterministic and lineage single-cell modes are decided by the harness oracle only"]
 ASSUMPTIONS = ["generic position: no reaction time coincides with a grid time", "per elapsed step is counted from the second row on (quantifier)"]
-MODES = ["det", "ssa", "ssa_safe", "vssa", "dssa", "lineage"]
+MODES = ["det", "ssa", "ssa_safe", "vssa", "dssa", "dvssa", "lineage"]
 
 def gen_case(rng):
     mode = rng.choice(MODES)
-    spec = G.gen_network(rng, kinds=("massaction",), nrx=(0, 3), nsp=(1, 3), allow_delay=(mode == "dssa"), max_order=2, integer_state=True, bounded=True, named=False)
+    spec = G.gen_network(rng, kinds=("massaction",), nrx=(0, 3), nsp=(1, 3), allow_delay=(mode in ("dssa", "dvssa")), max_order=2, integer_state=True, bounded=True, named=False)
     for rx in spec["reactions"]: rx["params"]["k"] = rng.choice([0.05, 0.1, 0.25, 0.5])
     for s in spec["x0"]: spec["x0"][s] = float(rng.randint(0, 6))
     sp = list(spec["x0"].keys()); n = rng.randint(3, 8); dt = rng.choice([0.25, 0.5, 1.0, 0.1, 0.3])     # 0.1, 0.3: grid elements with binary round-off (3*0.1 = 0.30000000000000004) -- S3_C09
     if dt in (0.1, 0.3): n = rng.randint(5, 14)
-    times = [i * dt for i in range(n)]
+    # a quarter of the stochastic grids start after the initial time 0, half of those between two steps of the simulators' own dt clocks
+    # (defect F23: the delay + volume simulator re-applied dt rules after every bare move to a requested time lying between two volume steps)
+    off = rng.choice([0.5 * dt, 0.5 * dt, dt, 3 * dt]) if (mode in ("ssa", "ssa_safe", "vssa", "dssa", "dvssa") and dt in (0.25, 0.5, 1.0) and rng.random() < 0.3) else 0.0
+    times = [off + i * dt for i in range(n)]
     rules = []; expect = []
     a = rng.choice(sp)
     if rng.random() < 0.8:
@@ -44,11 +47,14 @@ def gen_case(rng):
         k = rng.randint(1, n - 2); val = float(rng.randint(5, 9)); spec["x0"]["Sc"] = 1.0
         rules.append(["assignment", {"equation": "Sc = %r" % val}, times[k]]); expect.append({"kind": "scheduled", "dest": "Sc", "k": k, "before": 1.0, "after": val})
     spec["rules"] = rules
+    # construction history: the model is built (and initialised) with the first rules, the last k are added with create_rule afterwards
+    # (seeded change S4_C09: the rule pointers of an earlier initialisation were kept and the whole list appended again)
+    if len(rules) >= 2 and rng.random() < 0.35: spec["late_rules"] = rng.randint(1, len(rules) - 1)
     spec["species"] = list(spec["species"]) + [s_ for s_ in ("Ra", "Rb", "Cn", "Od", "Sc") if s_ in spec["x0"]]
     case = {"spec": spec, "mode": mode, "times": times, "seed": rng.randint(1, 2**31), "expect": expect,
-            "kind": {"ssa": "ssa", "ssa_safe": "ssa", "vssa": "vssa", "dssa": "dssa"}.get(mode), "safe": mode == "ssa_safe"}
+            "kind": {"ssa": "ssa", "ssa_safe": "ssa", "vssa": "vssa", "dssa": "dssa", "dvssa": "dvssa"}.get(mode), "safe": mode == "ssa_safe"}
     if any(rx.get("delay", {}).get("reactants") for rx in spec["reactions"]): case["safe"] = True
-    if mode == "vssa": case["volume"] = {"type": "base", "V0": rng.choice([0.5, 1.0, 2.0])}
+    if mode in ("vssa", "dvssa"): case["volume"] = {"type": "base", "V0": rng.choice([0.5, 1.0, 2.0])}
     return case
 
 def gen_cases(seed, tier):
@@ -58,7 +64,7 @@ def gen_cases(seed, tier):
 def impl_case(case):
     import numpy as np, warnings
     warnings.simplefilter("ignore")
-    if case["mode"] in ("ssa", "ssa_safe", "vssa", "dssa"):
+    if case["mode"] in ("ssa", "ssa_safe", "vssa", "dssa", "dvssa"):
         r = R.impl_replay(case)
         from bioscrape.types import Model
         r["species"] = _species_of(case)
@@ -73,8 +79,10 @@ def impl_case(case):
     from bioscrape.lineage import LineageModel, LineageSSASimulator
     from bioscrape.random import py_seed_random
     spec = case["spec"]
+    rl = [tuple(r) for r in spec["rules"]]; late = min(int(spec.get("late_rules", 0) or 0), len(rl))
     M = LineageModel(species=list(spec["species"]), reactions=[G.reaction_tuple(r) for r in spec["reactions"]], parameters=list(spec["parameters"].items()),
-                     rules=[tuple(r) for r in spec["rules"]], initial_condition_dict=dict(spec["x0"]))
+                     rules=rl[:len(rl) - late], initial_condition_dict=dict(spec["x0"]))
+    for r_ in rl[len(rl) - late:]: M.create_rule(*r_)
     M.create_volume_rule("linear", {"growth_rate": 0.1}); M.py_initialize()
     py_seed_random(case["seed"])
     res = LineageSSASimulator().py_SimulateSingleCell(np.array(case["times"]), Model=M)
@@ -93,8 +101,11 @@ def _mode_label(case):
     """the volume-aware and the lineage simulators keep their own step clock (next_queue_time += dt); on a grid whose step is no
     exact binary fraction that clock and the grid drift apart by an ulp (known finding F20): such cases get their own site key"""
     dt = case["times"][1] - case["times"][0]
-    inexact = case["mode"] in ("vssa", "lineage") and (dt * 64) != int(dt * 64)
-    return case["mode"] + (", inexact grid step" if inexact else "")
+    inexact = case["mode"] in ("vssa", "dvssa", "lineage") and (dt * 64) != int(dt * 64)
+    # ... and they stop only at reaction times, their own steps (initial time 0 + k dt) and queue slots, never at the requested times
+    # (known finding F24): a grid lying BETWEEN those steps gets its own site key as well
+    between = case["mode"] in ("vssa", "dvssa") and (case["times"][0] / dt) != int(case["times"][0] / dt)
+    return case["mode"] + (", inexact grid step" if inexact else ", grid between volume steps" if between else "")
 
 def oracle(case, r):
     if not r or "rows" not in r: return "implementation failed: %s" % json.dumps(r)[:300]
@@ -126,7 +137,8 @@ def site(case, msg): return (msg or "any").split(":")[0]
 def key(case): return json.dumps([case["spec"], case["mode"], case["times"], case["seed"]], sort_keys=True)
 def stats(cases):
     from collections import Counter
-    return {"modes": dict(Counter(c["mode"] for c in cases)), "rule_expectations": dict(Counter(e["kind"] for c in cases for e in c["expect"]))}
+    return {"modes": dict(Counter(c["mode"] for c in cases)), "grids_starting_after_t0": sum(1 for c in cases if c["times"][0] > 0), "rule_expectations": dict(Counter(e["kind"] for c in cases for e in c["expect"])),
+            "rules_added_after_first_initialisation": sum(1 for c in cases if c["spec"].get("late_rules"))}
 def shrink(case, fails):
     from harness.shrink import shrink_list
     spec = case["spec"]
